@@ -22,7 +22,7 @@ DEFAULT = dict(
     nb=(1, 3), p_par=0.0, p_fwd=0.0, p_lazy=0.3, hist=None, levels=4, p_raise=0.07, p_retexc=0.02, p_sync=0.2, p_wild=0.1,
     n_actors=(1, 3), actor_ops=(1, 5), p_redisp=0.0, p_spawn=0.0, p_busy=0.05, p_bus=0.08, modes=['fire', 'await', 'await', 'later'],
     handlers_per=(0, 1, 1, 2), prog_len=(0, 3), p_strpat=0.15, p_idle=0.0, p_explicit_parent=0.0, jitter=True, actor_await=0.5,
-    cross_bus=True, exc_kinds=EXCS, p_actor_redisp=0.0,
+    cross_bus=True, exc_kinds=EXCS, p_actor_redisp=0.0, p_age=0.0,
 )
 
 
@@ -48,6 +48,8 @@ def rand_prog(rng: random.Random, c: dict, level: int, nb: int, own_bus: int, sy
                 mode = 'fire' if sync else rng.choice(c['modes'])
                 pre = rng.choice([None, None, 0, 0, 1e-3, 0.05, 0.1, 0.15]) if mode == 'await' else None
                 opts = {}
+                if c.get('p_age') and rng.random() < c['p_age']:
+                    opts['age'] = rng.choice([0.5, 5.0, 60.0])
                 if rng.random() < c['p_explicit_parent']:
                     opts['parent'] = '00000000-0000-7000-8000-%012x' % rng.randrange(1 << 40)
                 prog.append(['disp', rng.randint(level + 1, c['levels'] - 1), tb, mode, pre, opts])
@@ -109,7 +111,10 @@ def random_scenario(rng: random.Random, c: dict) -> dict:
             elif x < c['p_idle'] + c['p_actor_redisp'] + 0.24:
                 ops.append(['sleep', rng.choice(DELAYS)])
             else:
-                ops.append(['disp', rng.randint(0, max(0, c['levels'] - 2)), rng.randrange(nb), 'await' if rng.random() < c['actor_await'] else 'fire', rng.choice(DELAYS), {}])
+                opts = {}
+                if c.get('p_age') and rng.random() < c['p_age']:
+                    opts['age'] = rng.choice([0.5, 5.0, 60.0])
+                ops.append(['disp', rng.randint(0, max(0, c['levels'] - 2)), rng.randrange(nb), 'await' if rng.random() < c['actor_await'] else 'fire', rng.choice(DELAYS), opts])
                 nd += 1
         for k in range(nd):
             ops.append(['await', k])
@@ -364,7 +369,8 @@ def rand_payload(rng: random.Random, depth: int = 0):
         if x < 0.35:
             return rng.choice([True, False, None])
         if x < 0.75:
-            return rng.choice(['', 'a', 'hello world', 'ü-ß-é', '日本語', '𝄞 clef', 'emoji 😀', 'quote " backslash \\ newline \n tab \t', '\u0000nul', 'a' * 200, '</script>', '{"not": "json"}'])
+            return rng.choice(['', 'a', 'hello world', 'ü-ß-é', '日本語', '𝄞 clef', 'emoji 😀', 'quote " backslash \\ newline \n tab \t', '\u0000nul', 'a' * 200, '</script>', '{"not": "json"}',
+                               'x' * 20000, 'line1\r\nline2', '\u2028 line separator \u2029', 'trailing space ', "single ' quote"])
         if x < 0.88:
             return {'$dt': rng.choice(['2024-01-02T03:04:05+00:00', '1999-12-31T23:59:59.999999+05:30', '2030-06-15T12:00:00', '2024-02-29T00:00:00.000001-08:00'])}
         return rng.randint(-1000, 1000)
